@@ -6,6 +6,7 @@ package copysc
 
 import (
 	"context"
+	"encoding/json"
 	"fmt"
 	"net/http"
 	"os"
@@ -60,6 +61,10 @@ type Pre struct {
 	Keep     []string `json:"keep"`               // digests of the graph present at the target before the copy
 	StaleTag bool     `json:"stale_tag"`          // the target tag points at unrelated content
 	Symlinks bool     `json:"symlinks,omitempty"` // layout target: the pre-existing blob files are symlinks into a content store
+	// Damage (layout target): "root-file-missing" = index.json lists the target tag with the source's top-level digest,
+	// but the manifest's file is not there (an interrupted or pruned layout): the listing alone is no proof that the
+	// target "already equals the source"
+	Damage string `json:"damage,omitempty"`
 }
 
 // CopyOpts is the generated option set.
@@ -138,6 +143,7 @@ type GenOptions struct {
 	Img       imggen.Options
 	NoDelays  bool
 	Align     bool // draw Case.Align (requests released in pairs) in a quarter of the cases
+	Damage    bool // draw Pre.Damage for layout targets (C03 only: C04 / C14 judge pre-states that must be sound)
 }
 
 // DefaultGen returns the full generator options.
@@ -229,6 +235,9 @@ func Gen(t *rapid.T, o GenOptions) Case {
 	c.TgtByDigest = rapid.IntRange(0, 7).Draw(t, "bydigest") == 0
 	c.SrcForm = rapid.SampledFrom([]string{"", "", "", "", "digest", "tag+digest"}).Draw(t, "srcform")
 	c.Pre.Symlinks = c.Pre.Mode != "empty" && rapid.IntRange(0, 3).Draw(t, "pre_symlinks") == 0
+	if o.Damage && (c.Pairing == "reg-layout" || c.Pairing == "two-layout") && rapid.IntRange(0, 5).Draw(t, "pre_damage") == 0 {
+		c.Pre.Damage = "root-file-missing"
+	}
 	c.LayoutNames = rapid.SampledFrom([]int{0, 0, 0, 1, 2, 3, 4, 5}).Draw(t, "layout_names")
 	c.TgtMirror = rapid.IntRange(0, 4).Draw(t, "tgt_mirror") == 0
 	c.Cache = rapid.IntRange(0, 2).Draw(t, "cache") == 0
@@ -257,6 +266,9 @@ func (c Case) ClientClasses() []string {
 	}
 	if c.Align {
 		out = append(out, "schedule:requests-released-in-pairs")
+	}
+	if c.Pre.Damage != "" {
+		out = append(out, "pre-damage:"+c.Pre.Damage)
 	}
 	if c.Cache && c.Warm != "" {
 		out = append(out, "client:cache+warm")
@@ -449,6 +461,11 @@ func Setup(c Case) (*Env, error) {
 	} else if c.Pre.Mode == "complete" {
 		e.Src.Host.Repo(e.Src.Repo).Tags[e.TgtTag] = e.RootDig
 	}
+	if c.Pre.Damage == "root-file-missing" && e.Tgt.Kind == "layout" {
+		if err := damageRootFileMissing(e.Tgt.Dir, e.TgtTag, g.Nodes[g.Root]); err != nil {
+			return nil, err
+		}
+	}
 	// record the pre-state from raw storage
 	tv := e.Tgt.View()
 	for _, d := range tv.Digests() {
@@ -499,6 +516,47 @@ func Setup(c Case) (*Env, error) {
 	e.warm()
 	e.WarmRequests = e.M.Requests()
 	return e, nil
+}
+
+// damageRootFileMissing makes index.json list tag -> root (creating the layout when it does not exist yet) and removes
+// the root manifest's file.
+func damageRootFileMissing(dir, tag string, root *imggen.Node) error {
+	if err := os.MkdirAll(filepath.Join(dir, "blobs", "sha256"), 0o777); err != nil {
+		return err
+	}
+	if _, err := os.Stat(filepath.Join(dir, "oci-layout")); err != nil {
+		if err := os.WriteFile(filepath.Join(dir, "oci-layout"), []byte(`{"imageLayoutVersion":"1.0.0"}`), 0o644); err != nil {
+			return err
+		}
+	}
+	idx := map[string]any{"schemaVersion": 2, "mediaType": rm.MTOCIIndex, "manifests": []any{}}
+	if b, err := os.ReadFile(filepath.Join(dir, "index.json")); err == nil {
+		_ = json.Unmarshal(b, &idx)
+	}
+	var keep []any
+	if l, ok := idx["manifests"].([]any); ok {
+		for _, x := range l {
+			if m, ok := x.(map[string]any); ok {
+				if a, ok := m["annotations"].(map[string]any); ok && a["org.opencontainers.image.ref.name"] == tag {
+					continue
+				}
+			}
+			keep = append(keep, x)
+		}
+	}
+	keep = append(keep, map[string]any{"mediaType": root.MediaType, "digest": root.Digest, "size": len(root.Body),
+		"annotations": map[string]any{"org.opencontainers.image.ref.name": tag}})
+	idx["manifests"] = keep
+	b, err := json.Marshal(idx)
+	if err != nil {
+		return err
+	}
+	if err := os.WriteFile(filepath.Join(dir, "index.json"), b, 0o644); err != nil {
+		return err
+	}
+	alg, hex, _ := strings.Cut(root.Digest, ":")
+	_ = os.Remove(filepath.Join(dir, "blobs", alg, hex))
+	return nil
 }
 
 // warm lets the client under test do what a caller may have done before the copy (errors are ignored,
